@@ -1244,6 +1244,8 @@ func (p *Proc) resolveType(ec *ectx, e ast.Expr) types.Type {
 		return types.NewStruct(nil, nil)
 	case *ast.FuncType:
 		return types.NewSignatureType(nil, nil, nil, nil, nil, false)
+	case *ast.InterfaceType:
+		return types.NewInterfaceType(nil, nil)
 	}
 	return nil
 }
